@@ -8,10 +8,11 @@ mb = KaniUnit("c06_mb", APP, modules=[dict(file=OPS, src="c06_min_bin.rs")],
               harnesses=[H("c06_min_bin_contract", "bounded", "min_bin on the real code: Err iff empty; otherwise the index of a least total", bound="<= 3 bins, finite non-negative totals", timeout=150)])
 wit = KaniUnit("c06_wit", APP, modules=[dict(file=CA, src="app_wit.rs")], harnesses=[])
 wit.native_witnesses = ["c06_wit_one_response_per_query", "c12_wit_rejected_only_batches"]
-UNITS = [VerusUnit("c06_balance", "c06_balance", rlimit=60), VerusUnit("c08_vehicle", "c08_vehicle", rlimit=60), mb, wit]
+UNITS = [VerusUnit("c06_balance", "c06_balance", rlimit=60), VerusUnit("c06_output", "c06_output", rlimit=30), VerusUnit("c08_vehicle", "c08_vehicle", rlimit=60), mb, wit]
 EXPLANATION = ("the heart of C06 -- independence of the response multiset from the rayon schedule, from par_chunks chunking and from batch order; isolation of a failing query; the shared prediction cache -- is NOT decided: "
                "Kani has no threads, Verus has no model of rayon, and a contract on CompassApp::run would have to assume rayon's semantics, which is the property. Decided: apply_load_balancing_policy (Verus, any batch and "
                "parallelism) returns exactly `parallelism` bins that PARTITION the batch (every query in exactly one bin, input order kept inside a bin), empty batch => no bins, parallelism 0 => Err not panic; min_bin (Kani, bounded); "
-               "cache transparency of PredictionModelRecord::predict is carried by C08; a native witness runs batches of 1..9 queries at parallelism 1..4 through the real CompassApp::run (thorough tier)")
+               "apply_output_processing / run_single_query (Verus, any number of output plugins): one query always yields one response value; it is the initial output with the plugins applied in order, and the first plugin "
+               "failure turns it into an error response packaged with the ORIGINAL request; cache transparency of PredictionModelRecord::predict is carried by C08; a native witness runs batches of 1..9 queries at parallelism 1..4 through the real CompassApp::run (thorough tier)")
 NOT_DECIDED = "schedule / chunking / batch-order independence under rayon; isolation of failing queries inside run_batch_*; package_error (serde_json)"
 ASSUMPTIONS = ["min_bin / get_query_weight_estimate as assumed contracts in the Verus unit (min_bin's is checked by Kani up to 3 bins)"]
